@@ -63,7 +63,8 @@ Record obs := {
   ob_fs : fs;                    (* the directory afterwards *)
   ob_exit : option nat;          (* None: the process was killed *)
   ob_stage : stage;
-  ob_calls : option (list gocall)   (* the fake go tool's log; None when the real go was used *)
+  ob_calls : option (list gocall);  (* the fake go tool's log; None when the real go was used *)
+  ob_mainseen : option (list bool)  (* per go command: did mage_output_file.go exist while it ran (the fake go tool looks) *)
 }.
 
 Record icase := {
@@ -93,6 +94,19 @@ Definition effective (w : world) (tn ohf : bool) (d : fs) : fs * bool :=
   | _ => (d1, tn)
   end.
 
+(* for every go command the model starts: does mage_output_file.go exist in the state the step starts in?
+   (the order of go-tool calls against file-system effects) *)
+Fixpoint seen_from (w : world) (f : step -> bool) (fl : flags) (l : list step) (s : state) : list bool :=
+  match l with
+  | [] => []
+  | st :: r =>
+      let here := match lookup (s_fs s) mainfile with Some _ => true | None => false end in
+      match exec w f fl st s with
+      | Cont s' => repeat here (length (s_calls s') - length (s_calls s)) ++ seen_from w f fl r s'
+      | Exit _ s' => repeat here (length (s_calls s') - length (s_calls s))
+      end
+  end.
+
 Definition model_invoke (c : icase) : obs :=
   let w := c_world c in
   let f := faults_of (c_faults c) in
@@ -100,7 +114,7 @@ Definition model_invoke (c : icase) : obs :=
   let fl := with_mfdir (c_flags c) mf in
   match c_crash c with
   | Some k =>
-      {| ob_fs := crash_dir w f fl k (c_fs c); ob_exit := None; ob_stage := SAny; ob_calls := None |}
+      {| ob_fs := crash_dir w f fl k (c_fs c); ob_exit := None; ob_stage := SAny; ob_calls := None; ob_mainseen := None |}
   | None =>
       let o := invoke_dir_full w f fl d in
       let '(after0, code) := invoke_named w f (c_flags c) (c_topnamed c) (c_ohf c) (c_fs c) in
@@ -108,7 +122,8 @@ Definition model_invoke (c : icase) : obs :=
                    | Some (n, bin, inner) => if compiled fl o then set n (install bin inner (lookup after0 n)) after0 else after0
                    | None => after0
                    end in
-      {| ob_fs := after; ob_exit := Some code; ob_stage := stage_of (o_at o); ob_calls := Some (o_calls o) |}
+      {| ob_fs := after; ob_exit := Some code; ob_stage := stage_of (o_at o); ob_calls := Some (o_calls o);
+         ob_mainseen := Some (seen_from w f fl all_steps (init_state d)) |}
   end.
 
 Definition obs_eqb (m o : obs) : bool :=
@@ -117,6 +132,10 @@ Definition obs_eqb (m o : obs) : bool :=
   stage_eqb (ob_stage m) (ob_stage o) &&
   match ob_calls o, ob_calls m with
   | Some oc, Some mc => list_eqb gocall_eqb mc oc
+  | _, _ => true
+  end &&
+  match ob_mainseen o, ob_mainseen m with
+  | Some os, Some ms => list_eqb Bool.eqb ms os
   | _, _ => true
   end.
 
